@@ -185,7 +185,7 @@ def top_level_blocks(src, mask, lo, hi):
         i += 1
 
 
-def find_container(src, mask, lo, hi, regex):
+def find_container(src, mask, lo, hi, regex, having=None):
     rx = re.compile(regex)
     hits = []
     for hs, ob, cb in top_level_blocks(src, mask, lo, hi):
@@ -194,6 +194,16 @@ def find_container(src, mask, lo, hi, regex):
         header_noattr = re.sub(r'#\s*!?\[[^\]]*\]\s*', '', header)
         if rx.search(header_noattr):
             hits.append(Container(src, mask, hs, ob, cb, header_noattr))
+    if having and len(hits) > 1:
+        # several blocks with the same header (e.g. two `impl T {`): take the one that defines fn <having>
+        keep = []
+        for c in hits:
+            try:
+                find_fn(src, mask, c.body_open + 1, c.body_close, having)
+                keep.append(c)
+            except Lost:
+                pass
+        hits = keep
     if not hits:
         raise Lost('container /%s/ not found' % regex)
     if len(hits) > 1:
@@ -331,6 +341,9 @@ def rewrite_body(text, counts, opts):
     # D11 panic!(..) -> vpanic()
     text, n = _replace_macro_calls(text, 'panic', lambda a: 'vpanic()')
     counts.hit('D11_panic', n)
+    for mac in ('unreachable', 'todo', 'unimplemented'):
+        text, n = _replace_macro_calls(text, mac, lambda a: 'vpanic()')
+        counts.hit('D11_panic', n)
     # D12 debug_assert!(c) -> vdebug_assert(c)   (obligation: c holds)
     text, n = _replace_macro_calls(text, 'debug_assert', lambda a: 'vdebug_assert(%s)' % split_top_commas(a)[0].strip())
     counts.hit('D12_debug_assert', n)
@@ -592,6 +605,7 @@ def assemble(unit_path, repo, vf_dir):
         return (os.path.basename(cur_file or '?') + '::' + re.sub(r'\s+', ' ', hdr)[:60] + '::' + name)
 
     unit_subst = []
+    silent = []
     defs = {}
     expansions = {}
     while i < len(lines):
@@ -623,6 +637,40 @@ def assemble(unit_path, repo, vf_dir):
                 buf.append(lines[i])
                 i += 1
             defs[name] = buf
+        elif s.startswith('%frag'):
+            # %frag <fn> /<regex ending at the opening brace>/ : a *fragment* of a function -- the
+            # balanced block that starts where <regex> matches (typically `match <scrutinee> {`) -- is
+            # emitted verbatim (after the usual rewrites).  Fragment-level contracts are labelled as
+            # such in evidence: the code around the fragment is not verified.
+            mm = re.match(r'%frag\s+(\w+)\s+/(.*)/\s*$', s)
+            fname, frx = mm.group(1), mm.group(2)
+            lo, hi = cur_range()
+            hs, sig_start, ob, cb = find_fn(src, mask, lo, hi, fname)
+            m2 = re.search(frx, mask[ob:cb])
+            if not m2:
+                raise Lost('fragment /%s/ not found in fn %s' % (frx, fname))
+            bo = ob + m2.end() - 1
+            if src[bo] != '{':
+                raise Lost('fragment regex must end at an opening brace')
+            bc = match_close(src, bo)
+            ftext = src[ob + m2.start():bc + 1]
+            sha = hashlib.sha256(ftext.encode()).hexdigest()
+            i += 1
+            fsub = []
+            while i < len(lines) and lines[i].strip().startswith('%fsubst'):
+                m3 = re.match(r'%fsubst\s+/(.*)/\s*=>\s*(.*)$', lines[i].strip())
+                fsub.append((m3.group(1), m3.group(2)))
+                i += 1
+            ftext = rewrite_body(ftext, A.counts, {})
+            for pat, rep in fsub + unit_subst:
+                ftext, n = re.subn(pat, rep, ftext)
+                A.counts.hit('Dx_fn_subst', n)
+            first = A.lineno()
+            A.emit(ftext)
+            A.fn_ranges.append((first, A.lineno() - 1, qual('fragment of ' + fname)))
+            A.functions.append(dict(name=qual('FRAGMENT of ' + fname + ' /' + frx + '/'), file=cur_file, sha256=sha,
+                                    container=stack[-1].header if stack else ''))
+            A.counts.hit('D19_fragment_extracted')
         elif s.startswith('%expand'):
             # D7b: a macro_rules! macro defined in the current %file, with a single arm whose
             # parameters are `$x:expr...`, is expanded textually from its definition (re-read now)
@@ -694,23 +742,36 @@ def assemble(unit_path, repo, vf_dir):
             A.functions.append(dict(name=kind + ' ' + name, file=cur_file,
                                     sha256=hashlib.sha256(src[a:b].encode()).hexdigest(), container=''))
             i += 1
-        elif s.startswith('%in'):
+        elif s.startswith('%in') or s.startswith('%scope'):
+            # %scope = %in without emitting the container header (lookup scope for %frag)
+            is_scope = s.startswith('%scope')
+            if is_scope:
+                s = '%in' + s[len('%scope'):]
+            having = None
+            hm = re.search(r'\s+having=(\w+)\s*$', s)
+            if hm:
+                having = hm.group(1)
+                s = s[:hm.start()]
             m = re.match(r'%in\s+/(.*?)/\s*(=>\s*(.*))?$', s)
             if not m:
                 raise ValueError('bad %in line: ' + s)
             lo, hi = cur_range()
-            c = find_container(src, mask, lo, hi, m.group(1))
+            c = find_container(src, mask, lo, hi, m.group(1), having)
             newh = m.group(3)
-            if newh:
+            silent.append(is_scope)
+            if is_scope:
+                pass
+            elif newh:
                 A.counts.hit('D4_trait_impl_to_inherent')
                 A.emit(newh.strip() + ' {')
             else:
                 A.emit(c.header + ' {')
             stack.append(c)
             i += 1
-        elif s == '%out':
+        elif s == '%out' or s == '%endscope':
             stack.pop()
-            A.emit('}')
+            if not silent.pop():
+                A.emit('}')
             i += 1
         elif s.startswith('%fn'):
             w = s.split()
